@@ -64,6 +64,30 @@ def check_word(case):
     return OK(len(w) >= 3 and any(c in pin.DIRS for c in w), "strict" if pin.is_strict(w) else "general")
 
 
+def check_long_word(case):
+    """Pin words of several hundred letters: decoding is defined for every length (the word is
+    decoded cold, and again after its prefixes were decoded)."""
+    from ..lib import with_default_recursion_budget
+
+    w = case
+    want = pin.decode(w)
+    status, got = with_default_recursion_budget(lambda: PW.pinword_to_perm(w))
+    if status == "recursion":
+        return BAD("pinword_to_perm_recursion_error", {"length": len(w), "word_prefix": w[:40]})
+    if tuple(got) != want or not isinstance(got, Perm):
+        return BAD("pinword_to_perm_long", {"length": len(w), "word_prefix": w[:40]})
+    k = len(w) // 2
+    status, got = with_default_recursion_budget(lambda: PW.pinword_to_perm(w[:k]))
+    if status == "recursion" or tuple(got) != pin.decode(w[:k]):
+        return BAD("pinword_to_perm_long_prefix", {"length": k})
+    i = len(w) - 1
+    if PW.quadrant(w, i) != pin.quadrant(w, i):
+        return BAD("quadrant_long", {"index": i})
+    if "".join(PW.factor_pinword(w)) != w or PW.factor_pinword(w) != pin.factor(w):
+        return BAD("factor_pinword_long", {})
+    return OK(True, "long_word", key=w)
+
+
 def check_tables(case):
     n = case
     lang = pin.language(n)
@@ -170,7 +194,7 @@ def check_strict(case):
     return OK(len(want) >= 1 and len(u) >= 3, "overlapping_occurrences" if overlap else "occurs" if want else "no_occurrence", key=f"{w}|{u}")
 
 
-CHECKS = {"word": check_word, "tables": check_tables, "translation": check_translation, "contain": check_contain, "strict": check_strict}
+CHECKS = {"long_word": check_long_word, "word": check_word, "tables": check_tables, "translation": check_translation, "contain": check_contain, "strict": check_strict}
 
 
 # ------------------------------------------------------------------ generators
@@ -267,6 +291,7 @@ def strict_cases(draw):
 def shard_generated(acc, shard, nshards, n_word, n_contain):
     engine.hyp_run(acc, "strict", check_strict, strict_cases(), n_contain * 4, shard)
     engine.hyp_run(acc, "word", check_word, pin_words(5, 12), n_word, shard)
+    engine.hyp_run(acc, "long_word", check_long_word, pin_words(300, 1100), max(2, n_word // 20), shard)
     engine.hyp_run(acc, "contain", check_contain, contain_cases(), n_contain, shard)
 
 
